@@ -15,7 +15,9 @@ for d in sorted(glob.glob('/verif/audit/C*')):
         key = pid + '/' + os.path.basename(p)
         if subprocess.run(['git', '-C', '/repo', 'status', '--short', '--untracked-files=no'], capture_output=True, text=True).stdout.strip():
             print('/repo dirty - abort'); sys.exit(2)
-        if subprocess.run(['git', '-C', '/repo', 'apply', p], capture_output=True).returncode != 0:
+        if subprocess.run(['git', '-C', '/repo', 'apply', p], capture_output=True).returncode != 0 and \
+                subprocess.run(['patch', '-d', '/repo', '-p1', '-s', '-F3', '--no-backup-if-mismatch', '-i', p], capture_output=True).returncode != 0:
+            subprocess.run(['git', '-C', '/repo', 'checkout', '--', '.'])
             out[key] = {'error': 'patch does not apply'}; print(key, 'PATCH DOES NOT APPLY', flush=True); continue
         try:
             t0 = time.time()
